@@ -7,7 +7,9 @@
 (* [statuses, final] that the real application produced for that race      *)
 (* under the scheduler; each terminal state reports which of them it       *)
 (* explains, so that the harness can tell outcomes the model does not      *)
-(* admit (a conformance failure) from outcomes only the model has.         *)
+(* admit (a conformance failure) from outcomes only the model has.  An     *)
+(* observed outcome is [statuses, final, commits]: the trace of committed  *)
+(* transactions that changed the database is validated, not only the end.  *)
 (***************************************************************************)
 EXTENDS Tx, Json, IOUtils
 
@@ -46,7 +48,13 @@ Inv_C12 == Races[rid].known # "" \/ FinalC12
 Report ==
   Terminated =>
     LET obs == Races[rid].observed
+        \* an observed execution is explained by this behaviour if the statuses,
+        \* the final database and the whole sequence of state-changing commits
+        \* (who committed, database after it) coincide
         hit == {j \in DOMAIN obs : /\ obs[j].statuses = [k \in Procs |-> resp[k].status]
-                                   /\ NormState(obs[j].final) = db}
+                                   /\ NormState(obs[j].final) = db
+                                   /\ Len(obs[j].commits) = Len(hist)
+                                   /\ \A n \in DOMAIN hist : /\ obs[j].commits[n].who = hist[n].who
+                                                              /\ NormState(obs[j].commits[n].post) = hist[n].post}
     IN PrintT(<<"TXT", Races[rid].id, hit, [k \in Procs |-> resp[k].status]>>)
 =============================================================================
